@@ -70,6 +70,34 @@ where
     I::Item: std::fmt::Debug,
 {
     let v = drain(mk(), bound);
+    // positional access at and beyond the end (what skip(k) / step_by(s) with k, s larger than what is left turn into):
+    // the calls return; where answers are compared, they are "nothing", and the iterator stays finished
+    {
+        let n = v.len();
+        for k in [n, n + 1, n + 7] {
+            let mut it = mk();
+            let got = it.nth(k);
+            let after = it.next();
+            if assert && (got.is_some() || after.is_some()) {
+                panic!("{ITER_INCONSISTENT_MSG}: next() yields {n} items but nth({k}) on a fresh iterator is {got:?} (then {after:?})");
+            }
+        }
+        let beyond = drain(mk().skip(n + 1), bound).len();
+        let strided = drain(mk().step_by(n + 2), bound).len();
+        if assert && (beyond != 0 || strided != n.min(1)) {
+            panic!("{ITER_INCONSISTENT_MSG}: next() yields {n} items but skip({}) yields {beyond} and step_by({}) yields {strided}", n + 1, n + 2);
+        }
+        if n >= 1 {
+            // from a partly consumed iterator
+            let mut it = mk();
+            let _ = it.next();
+            let got = it.nth(n - 1);
+            if assert && got.is_some() {
+                panic!("{ITER_INCONSISTENT_MSG}: next() yields {n} items but after one of them nth({}) is {got:?}", n - 1);
+            }
+            let _ = it.next();
+        }
+    }
     if !assert {
         let _ = mk().take(bound).count();
         let _ = mk().take(bound).last();
